@@ -18,7 +18,7 @@ Section ST.
     rs_hash : all_recs (XP (RepC compact clock)) (m_hash s);
     rs_set : all_recs (XP (RepC compact clock)) (m_set s);
     rs_zset : all_recs (XP (RepZ compact clock)) (m_zset s);
-    rs_list : all_recs (XP (RepL compact clock)) (m_list s) }.
+    rs_list : all_recs (XP (fun l => RepL compact clock l /\ InSpace l)) (m_list s) }.
 
   (* the in-memory renewal of an expired header (only under wait_compact) keeps the invariant: the
      element keys of the old generation are garbage below the clock *)
@@ -64,13 +64,16 @@ Section ST.
     apply aput_recs; [exact H|]. eapply all_recs_mono; [exact PQ|exact A].
   Qed.
 
+  Lemma InSpace_empty : InSpace empty_lcoll.
+  Proof. intros m Hm. discriminate. Qed.
+
   Lemma RepS_mono clock clock' s : clock <= clock' -> RepS clock s -> RepS clock' s.
   Proof.
     intros L [A B C D]. constructor.
     - eapply all_recs_mono; [|exact A]. intros v; apply RepC_mono; exact L.
     - eapply all_recs_mono; [|exact B]. intros v; apply RepC_mono; exact L.
     - eapply all_recs_mono; [|exact C]. intros v; apply RepZ_mono; exact L.
-    - eapply all_recs_mono; [|exact D]. intros v; apply RepL_mono; exact L.
+    - eapply all_recs_mono; [|exact D]. intros v [Rv Sv]; split; [eapply RepL_mono; [exact L|exact Rv]|exact Sv].
   Qed.
 
   Lemma RepS_init : RepS 0 m_init.
@@ -83,7 +86,8 @@ Section ST.
     destruct R as [A B C D].
     assert (MH : forall v : hcoll, RepC compact clock v -> RepC compact ts v) by (intros v; apply RepC_mono; lia).
     assert (MZ : forall v, RepZ compact clock v -> RepZ compact ts v) by (intros v; apply RepZ_mono; lia).
-    assert (ML : forall v, RepL compact clock v -> RepL compact ts v) by (intros v; apply RepL_mono; lia).
+    assert (ML : forall v, RepL compact clock v /\ InSpace v -> RepL compact ts v /\ InSpace v)
+      by (intros v [Rv Sv]; split; [eapply RepL_mono; [|exact Rv]; lia|exact Sv]).
     assert (MS : forall v : scoll, RepC compact clock v -> RepC compact ts v) by (intros v; apply RepC_mono; lia).
     assert (HH : forall key (f : xr hcoll -> xr hcoll * reply),
                (forall v, XP (RepC compact clock) v -> XP (RepC compact ts) (fst (f v))) ->
@@ -110,11 +114,11 @@ Section ST.
       destruct (aupd (x0 empty_zcoll) key f (m_zset s)) as [m r]. cbn [fst] in *.
       destruct Rm as [A' B' _ D']. constructor; auto. }
     assert (LL : forall key (f : xr lcoll -> xr lcoll * reply),
-               (forall v, XP (RepL compact clock) v -> XP (RepL compact ts) (fst (f v))) ->
+               (forall v, XP (fun l => RepL compact clock l /\ InSpace l) v -> XP (fun l => RepL compact ts l /\ InSpace l) (fst (f v))) ->
                RepS ts (fst (let '(m, r) := aupd (x0 empty_lcoll) key f (m_list s) in
                              (Build_mstate (m_hash s) (m_set s) (m_zset s) m (m_kv s), r)))).
     { intros key f Hf.
-      pose proof (aupd_recs (XP (RepL compact clock)) (XP (RepL compact ts)) (x0 empty_lcoll) key f (m_list s) (fun v => ML (x_r v)) (RepL_empty compact clock) Hf D) as H.
+      pose proof (aupd_recs (XP (fun l => RepL compact clock l /\ InSpace l)) (XP (fun l => RepL compact ts l /\ InSpace l)) (x0 empty_lcoll) key f (m_list s) (fun v => ML (x_r v)) (conj (RepL_empty compact clock) InSpace_empty) Hf D) as H.
       destruct (aupd (x0 empty_lcoll) key f (m_list s)) as [m r]. cbn [fst] in *.
       destruct Rm as [A' B' C' _]. constructor; auto. }
     assert (FH : compact = true -> forall r : hcoll, RepC compact clock r -> RepC compact clock (forget_c r))
@@ -123,8 +127,8 @@ Section ST.
       by (intros Cc r; apply forget_c_rep; exact Cc).
     assert (FZ : compact = true -> forall r, RepZ compact clock r -> RepZ compact clock (forget_z r))
       by (intros Cc r; apply forget_z_rep; exact Cc).
-    assert (FL : compact = true -> forall r, RepL compact clock r -> RepL compact clock (forget_l r))
-      by (intros Cc r; apply forget_l_rep; exact Cc).
+    assert (FL : compact = true -> forall r, RepL compact clock r /\ InSpace r -> RepL compact clock (forget_l r) /\ InSpace (forget_l r))
+      by (intros Cc r [Rr _]; split; [apply forget_l_rep; assumption|intros m Hm; discriminate]).
     destruct c; cbn [map_step]; try exact Rm.
     - (* *expire *)
       destruct (negb (key_ok key)); [exact Rm|].
@@ -151,8 +155,10 @@ Section ST.
     - (* list write *)
       apply LL. intros v Rv. unfold XP in *.
       destruct (l_renews c).
-      + apply (xrenew_inv l_exists forget_l compact (RepL compact clock) (RepL compact ts)); auto. intros r Rr. apply (lstep_rep compact clock); auto.
-      + apply (xguard_inv l_exists compact (RepL compact clock) (RepL compact ts)); auto. intros r Rr. apply (lstep_rep compact clock); auto.
+      + apply (xrenew_inv l_exists forget_l compact (fun l => RepL compact clock l /\ InSpace l) (fun l => RepL compact ts l /\ InSpace l)); auto.
+        intros r [Rr Sr]. split; [apply (lstep_rep compact clock); auto|apply (lstep_space compact clock); auto].
+      + apply (xguard_inv l_exists compact (fun l => RepL compact clock l /\ InSpace l) (fun l => RepL compact ts l /\ InSpace l)); auto.
+        intros r [Rr Sr]. split; [apply (lstep_rep compact clock); auto|apply (lstep_space compact clock); auto].
     - (* kv write: the collections are untouched *)
       destruct (MapK.kstep compact ts c (m_kv s)) as [m r]. cbn [fst]. destruct Rm as [A' B' C' D']. constructor; auto.
   Qed.
